@@ -267,6 +267,7 @@ def run(tier, seed):
                 "{1,3/4,1/2,1/3} or LENGTH coverage in {1/2,3/4,7/10,17/20,1} over random edge lengths (DAG models), ignored edge, additional start, end, both}; ConstraintsHonoured by trace validation; optimum over "
                 "exactly the admissible solutions by the Peel / Cover / Fit adversaries which take constraints, ignore sets and "
                 "starts/ends natively; equivalences (scale 0 == ignored, [] == omitted) by Trace_Groups")
+    P.attribute_presolve(res, known)
     return res.finish(known, require_classes=["solved_with_constraints", "solved_with_partial_coverage", "solved_with_length_coverage", "solved_with_ignored",
                                               "solved_with_starts_ends", "equivalence_groups"])
 
